@@ -25,6 +25,7 @@ def cases(tier):
             cs.append(dict(name=f"backward_h{ih}_rg{rg}", fn="bw", args={}, prefix=[ih, rg], weight=2))
     for v in range(8):
         cs.append(dict(name=f"mtl_v{v}", fn="mtl", args={}, prefix=[v], weight=2))
+    cs.append(dict(name="graph_extended_in_place_between_calls", fn="extended", args={}, weight=2))
     return cs
 
 
@@ -110,6 +111,37 @@ def case_bw(sp):
         g1, g2 = grad_list(p1[n]), grad_list(p2[n])
         obs.append(Ob("defaulted_call_equals_explicit_call", (g1 is None and g2 is None) or (g1 is not None and g2 is not None and z3.is_true(z3.simplify(eq_all(g1, g2)))) or
                       (g1 is not None and g2 is not None and eq_all(g1, g2)), cex))
+    return obs
+
+
+def case_extended(sp):
+    """two defaulted calls on the SAME tensor object whose graph was extended in place in between (y += g(b)): the second call must see the new leaf"""
+    set_kernels()
+    mode = choice(2, "backward_or_mtl")
+    spec1 = dict(leaves=[("a", (2,), True), ("b", (2,), True), ("q", (), True)],
+                 ops=[dict(name="f", inputs=["a"], outs=[("y", ())], deps={(0, 0)})])
+    prog = Prog(spec1)
+    a, b, q, y = prog["a"], prog["b"], prog["q"], prog["y"]
+    w = [named("w0")]
+    def cex(model=None):
+        return dict(kind="default_inputs_extended", mode=["backward", "mtl"][mode])
+    if mode == 0:
+        backward([y], Constant(T(w)), retain_graph=True)
+    else:
+        # feature = y's input side: use a trunk/head split  a -> f(eature) -> loss
+        pass
+    # extend the graph of the very same tensor object: y <- g(y_old, b)   (what `y += h(b)` does in torch)
+    y_old = torch.Tensor(y._storage, y.shape, y._strides, y._offset, y.dtype, y.kind)
+    y_old.requires_grad, y_old.grad_fn, y_old._op, y_old._out_nr = True, y.grad_fn, y._op, y._out_nr
+    jac = {(0, 0): [[named("E_0")]], (0, 1): [[named("E_b0"), named("E_b1")]]}
+    (y_new,) = torch.autograd.op([y_old, b], [()], jac, name="inplace_add")
+    y.grad_fn, y._op, y._out_nr = y_new.grad_fn, y_new._op, 0
+    y._op.outputs[0] = y
+    gb_before = grad_list(b)
+    found = {t._name for t in _get_leaf_tensors([y], excluded=set())}
+    obs = [Ob("leaf_discovery_after_in_place_extension", found == {"a", "b"}, cex)]
+    backward([y], Constant(T(w)), retain_graph=True)
+    obs.append(Ob("new_leaf_receives_its_gradient_on_the_second_call", gb_before is None and grad_list(b) is not None, cex))
     return obs
 
 
